@@ -222,8 +222,20 @@ class SymArray:
             if not (v.t is None and isinstance(v.c, float)):
                 if self.tag is not None:
                     ctx().events.append(("mutate-input", self.tag, core._where()))
+                C = ctx()
                 for i in _np.ndindex(*self.a.shape):
-                    self.a[i] = core.sv_if(key.a[i], v, self.a[i])
+                    m = key.a[i]
+                    if m.t is not None and C.prune and C.shadow is None:
+                        # simplify against the path condition: a mask element already implied
+                        # true / false on this path needs no if-then-else
+                        from .solve import quick_feasible
+
+                        if quick_feasible(C, m.t, C.prune_timeout_ms) == "unsat":
+                            continue
+                        if quick_feasible(C, z3.Not(m.t), C.prune_timeout_ms) == "unsat":
+                            self.a[i] = v
+                            continue
+                    self.a[i] = core.sv_if(m, v, self.a[i])
                 return
         k = self._key(key)
         if self.tag is not None:
